@@ -3,6 +3,7 @@ package main
 import (
 	"encoding/json"
 	"fmt"
+	"math/big"
 	"strconv"
 	"strings"
 )
@@ -137,8 +138,116 @@ func genC05(tier, out string, sum *Summary) {
 			_ = o
 		}
 	}
+	// quotients next to an integer and operands at the precision limit: // and % must floor the
+	// EXACT quotient (a rounded quotient that crosses an integer gives a result off by one)
+	nines := strings.Repeat("9", 34)
+	limit := []string{nines, nines[:33] + "8", "1" + strings.Repeat("0", 33), "1" + strings.Repeat("0", 32) + "1", "5" + strings.Repeat("0", 33), nines[:17], "1" + strings.Repeat("0", 17), "0." + nines, "0." + nines[:33] + "7", "1e-33", "1.000000000000000000000000000000001", "6666666666666666666666666666666667", "3333333333333333333333333333333333"}
+	small := []string{"2", "3", "7", "9", "0.5", "0.3", "0.7", "1.5", "0.6666666666666666666666666666666667", "0.3333333333333333333333333333333333", "1e-5", "3e10", "0.9999999999999999999999999999999999", "1.000000000000000000000000000000001", "11", "13", "1e17", "6"}
+	for _, x := range limit {
+		for _, y := range small {
+			for _, neg := range []bool{false, true} {
+				a, b := x, y
+				if neg {
+					a, b = "-"+x, "-"+y
+				}
+				for _, op := range binops[3:6] {
+					emit(op.coq, []string{a, b}, "`"+a+"` "+op.text+" `"+b+"`", nil)
+					emit(op.coq, []string{b, a}, "y "+op.text+" x", map[string]any{"x": json.Number(a), "y": json.Number(b)})
+				}
+			}
+		}
+	}
+	// x = q*y exactly and one unit below / above: the quotient sits on, just under and just over an integer
+	for i := 0; i < n/10; i++ {
+		ny := 1 + rng.Intn(17)
+		nq := 1 + rng.Intn(34-ny)
+		if nq > 17 {
+			nq = 17
+		}
+		yi, _ := strconv.ParseInt(randDigits(ny), 10, 64)
+		qi, _ := strconv.ParseInt(randDigits(nq), 10, 64)
+		prod := new(big.Int).Mul(big.NewInt(yi), big.NewInt(qi))
+		ex := rng.Intn(20) - 10
+		for _, delta := range []int64{0, -1, 1} {
+			xs := new(big.Int).Add(prod, big.NewInt(delta)).String() + "e" + strconv.Itoa(ex)
+			ys := strconv.FormatInt(yi, 10) + "e" + strconv.Itoa(ex)
+			if delta != 0 && rng.Intn(2) == 0 { // the difference far below the 34th digit of the quotient
+				xs = prod.String() + strings.Repeat("0", 34-len(prod.String())) + "e" + strconv.Itoa(ex-(34-len(prod.String())))
+				xi, _ := new(big.Int).SetString(prod.String()+strings.Repeat("0", 34-len(prod.String())), 10)
+				xs = new(big.Int).Add(xi, big.NewInt(delta)).String() + "e" + strconv.Itoa(ex-(34-len(prod.String())))
+			}
+			for _, op := range binops[3:6] {
+				emit(op.coq, []string{xs, ys}, "x "+op.text+" y", map[string]any{"x": json.Number(xs), "y": json.Number(ys)})
+			}
+		}
+	}
+	// exact ties and carries at the 34th digit: the dropped part is exactly one half (round half to even),
+	// just under, just over; all nines carry into a 35th digit
+	for i := 0; i < 40; i++ {
+		lead := randDigits(33)
+		for _, last := range []string{"0", "1", "2", "5", "8", "9"} {
+			x := lead + last // 34 digits
+			for _, tail := range []string{"5", "50", "4999999", "5000001", "49", "51", "05", "95"} {
+				// x followed by the tail: more than 34 digits, spread over two or three addends
+				k := len(tail)
+				e := rng.Intn(30) - 15
+				a := x + strings.Repeat("0", k) + "e" + strconv.Itoa(e)
+				b := tail + "e" + strconv.Itoa(e)
+				if i%2 == 1 {
+					a, b = "-"+a, "-"+b
+				}
+				emit("PAdd", []string{a, b}, "x + y", map[string]any{"x": json.Number(a), "y": json.Number(b)})
+				emit("PSum", []string{a, b}, "sum(@)", []any{json.Number(a), json.Number(b)})
+				emit("PSum", []string{b, a, "0"}, "sum(@)", []any{json.Number(b), json.Number(a), json.Number("0")})
+				emit("PAvg", []string{a, b}, "avg(@)", []any{json.Number(a), json.Number(b)})
+				emit("PAvg", []string{a, b, a, b}, "avg(@)", []any{json.Number(a), json.Number(b), json.Number(a), json.Number(b)})
+				if tail == "5" || tail == "51" {
+					emit("PSub", []string{a, negate(b)}, "x - y", map[string]any{"x": json.Number(a), "y": json.Number(negate(b))})
+				}
+			}
+		}
+	}
+	for _, x := range limit {
+		for _, t := range []string{"0.5", "0.4", "0.6", "0.49999999999999999999", "0.50000000000000000001", "1", "5e-1", "1e-40"} {
+			for _, neg := range []bool{false, true} {
+				a, b := x, t
+				if neg {
+					a, b = "-"+x, "-"+t
+				}
+				emit("PSum", []string{a, b}, "sum(@)", []any{json.Number(a), json.Number(b)})
+				emit("PAvg", []string{a, b}, "avg(@)", []any{json.Number(a), json.Number(b)})
+				emit("PAvg", []string{a, a, b}, "avg(@)", []any{json.Number(a), json.Number(a), json.Number(b)})
+				emit("PAdd", []string{a, b}, "x + y", map[string]any{"x": json.Number(a), "y": json.Number(b)})
+				emit("PMul", []string{a, b}, "x * y", map[string]any{"x": json.Number(a), "y": json.Number(b)})
+			}
+		}
+	}
+	// cancellation: partial sums overflow or lose digits, the exact total does not
+	for _, c := range [][]string{{"1e36", "1", "-1e36"}, {"1e34", "1", "1", "1", "1", "1", "-1e34"}, {"5e33", "5e33", "0.5", "-1e34"}} {
+		arr := make([]any, len(c))
+		for i, x := range c {
+			arr[i] = json.Number(x)
+		}
+		emit("PSum", c, "sum(@)", arr)
+		emit("PAvg", c, "avg(@)", arr)
+	}
+	// the same at the ends of the exponent range (decided here: the exact total is one of the addends)
+	for _, c := range []struct {
+		arr  []string
+		want string
+	}{{[]string{"9e6144", "9e6144", "-9e6144"}, "9e6144"}, {[]string{"1e-6176", "1e-6176", "-1e-6176"}, "1e-6176"}, {[]string{"9999999999999999999999999999999999e6111", "1e6111", "-1e6111"}, "9999999999999999999999999999999999e6111"}} {
+		arr := make([]any, len(c.arr))
+		for i, x := range c.arr {
+			arr[i] = json.Number(x)
+		}
+		o := search("sum(@)", arr)
+		sum.count("range-ends/" + o.Kind)
+		if !(o.Kind == "val" && sameValue(o.Value, json.Number(c.want), false)) {
+			sum.direct("cancellation", "sum(@)", arr, "the exact total is "+c.want+", got "+describe(o))
+		}
+	}
 	// division by zero and overflow are errors, never infinities
-	for _, e := range []string{"`1` / `0`", "`0` / `0`", "`-1` / `0.0`", "`1` // `0`", "`1` % `0`", "`9e6144` * `10`", "`-9e6144` * `10`", "`9e6144` + `9e6144`", "`1e-6176` / `1e100`"} {
+	for _, e := range []string{"`1` / `0`", "`0` / `0`", "`-1` / `0.0`", "`1` // `0`", "`1` % `0`", "`9e6144` * `10`", "`-9e6144` * `10`", "`9e6144` + `9e6144`", "`-9e6144` - `9e6144`", "`9e6144` * `-10`", "- `9e6144` * `10`", "`9e3100` * `-9e3100`", "`-1` / `0`", "`-1` // `0`", "`-1` % `0`", "`0` // `0`", "`0` % `0`", "`9e6144` / `1e-100`", "`-9e6144` / `1e-100`", "sum(`[9e6144, 9e6144]`)", "sum(`[-9e6144, -9e6144]`)", "avg(`[9e6144, 9e6144, 9e6144]`) * `3`", "abs(`-9e6144`) * `10`", "`1e-6176` / `1e100`"} {
 		o := search(e, nil)
 		sum.count("traps/" + o.Kind)
 		if e == "`1e-6176` / `1e100`" {
@@ -156,4 +265,11 @@ func genC05(tier, out string, sum *Summary) {
 	sum.Shards = sh.files
 	sum.Distinct = len(distinct)
 	sum.Rule = "random JSON numbers with 1..34 significant digits (digit-boundary lengths favoured, runs of 9 and 0, exponents, leading zeros, near-equal pairs) x all binary operators (// and % for equal signs only), unary minus, abs, ceil, floor, to_number, sum, avg, through literals and through data; the observed result is compared with exact rational arithmetic inside Coq (exact when the result fits 34 digits, else within one unit of the 34th digit); results must be decimal values, never Go floats, infinities or NaN; also compared with the model; distinct = (operation, operands)"
+}
+
+func negate(x string) string {
+	if strings.HasPrefix(x, "-") {
+		return x[1:]
+	}
+	return "-" + x
 }
